@@ -241,7 +241,7 @@ def shrink_world(exe, lang, opts, text, key, max_steps=500):
 
 def run(ctx):
     quick = ctx.tier == "quick"
-    n_random = 170 if quick else 4000
+    n_random = 170 if quick else 3000
     cov = ctx.coverage
     ctx.assumptions += [
         "valid world := wit-parser accepts the text, the world can be selected, and wit-component's encoding of the package validates under wasmparser with all features on (harness `detnp valid`)",
@@ -411,7 +411,7 @@ def run(ctx):
                 cl["n_in_scope"] += 1
                 e = cl["example"]
                 if e is None or len(text) < len(e["wit"]):
-                    cl["example"] = {"lang": lang, "opts": c[1], "variant": kind, "wit": text, "world": name, "features": sorted(feats[wi])}
+                    cl["example"] = {"lang": lang, "opts": c[1], "variant": kind, "xkind": xkind, "wit": text, "world": name, "features": sorted(feats[wi])}
     if opt_err:
         ctx.tie_broken("machinery", "an option variant is rejected by the generator's own option parser: %s" % (opt_err[0],))
     n_viol = 0
@@ -428,7 +428,7 @@ def run(ctx):
         n_viol += 0 if known else 1
         ctx.violation(key, "%s generator panics (%s) on a valid world outside the features %s declares unsupported; %d runs in this class. World:\n%s"
                       % (cl["lang"], cl["msg"], cl["lang"], cl["n_in_scope"], e["wit"]),
-                      {"engine": "gen", "lang": e["lang"], "opts": e["opts"], "wit": e["wit"], "key": key, "variant": e["variant"]})
+                      {"engine": "gen", "lang": e["lang"], "opts": e["opts"], "wit": e["wit"], "key": key, "variant": e["variant"], "xkind": e["xkind"]})
 
     mark("classification_and_shrinking")
     # ---------------------------------------------------------------- evidence
@@ -479,7 +479,7 @@ def replay(ctx, path):
     print("backend:", r["lang"], "options:", r["opts"]); print(r["wit"]); print("valid world:", v)
     if k == "panic":
         lts, _ = lang_configs()
-        exc = Excl(lts).excluded(r["lang"], r.get("variant", "") if not r.get("variant", "").startswith("x-") else "", L.wit_features(r["wit"]))
+        exc = Excl(lts).excluded(r["lang"], r.get("xkind", ""), L.wit_features(r["wit"]))
         print("outcome: PANIC", d[0]); print("message:", d[1][:300]); print("declared unsupported for this backend:", exc)
         return 0 if (exc or v != "ok") else 1
     print("outcome:", k, d[:200]); print("verdict: no panic on this input")
